@@ -179,10 +179,26 @@ def run_grouped(E, case, prop):
         inp.pre.append(z3.And(alpha > 0, alpha <= 1))
         sel = inp.bools("m", N) if masked else [True] * N
         inp.vars["k"] = ("const", list(codes), "int64")
-        rt = fresh_runtime()
-        rt.div_obligation = True
-        out = em["_ema_grouped"](A(list(codes), "int64").tag("input:group_key"), _varr(xs, dt).tag("input:values"), SF(False, alpha), G,
-                                 A(sel, "bool").tag("input:mask") if masked else None)
+        if case.get("public"):
+            # the public entry point ema_grouped(...) (argument checks, dispatch to a kernel) instead of the kernel itself
+            from ..runtime import run_paths
+
+            def call(codes=codes, xs=xs, sel=sel, alpha=alpha):
+                from ..runtime import current as _cur
+                _cur().div_obligation = True
+                return em["ema_grouped"](A(list(codes), "int64").tag("input:group_key"), G, _varr(xs, dt).tag("input:values"), alpha=SF(False, alpha),
+                                         mask=A(sel, "bool").tag("input:mask") if masked else None)
+            paths = run_paths(call)
+            if len(paths) != 1:
+                raise Unsupported(f"ema_grouped forked into {len(paths)} paths on valid arguments")
+            pc, out, rt = paths[0]
+            if pc:
+                inp.pre.extend(pc)
+        else:
+            rt = fresh_runtime()
+            rt.div_obligation = True
+            out = em["_ema_grouped"](A(list(codes), "int64").tag("input:group_key"), _varr(xs, dt).tag("input:values"), SF(False, alpha), G,
+                                     A(sel, "bool").tag("input:mask") if masked else None)
         beta = SF(False, 1 - alpha)
 
         def beta_pow(j, i, codes=codes, beta=beta):
@@ -196,7 +212,7 @@ def run_grouped(E, case, prop):
             for i in range(N):
                 if codes[i] < 0:
                     bl.append((f"ema_grouped.nullrow[{i}]", b_not(_isnan(out.cells[i]))))
-        _decide_into(res, inp, bl, rt, case, prop, {"codes": list(codes)}, sig=f"ema_grouped:{dt.kind}:mask={masked}")
+        _decide_into(res, inp, bl, rt, case, prop, {"codes": list(codes)}, sig=f"ema_grouped{'(public)' if case.get('public') else ''}:{dt.kind}:mask={masked}")
     res["symex_s"] = time.time() - t0 - res["solver_s"]
     return _finish(res, E)
 
@@ -516,7 +532,10 @@ def replay(case, conc, cand=None):
             k = real_np.array(codes, dtype="int64")
             if v == "grouped":
                 alpha = float(conc["alpha"][0])
-                out = rem._ema_grouped(k, arr, alpha, case["G"], mask)
+                if case.get("public"):
+                    out = rem.ema_grouped(k, case["G"], arr, alpha=alpha, mask=mask)
+                else:
+                    out = rem._ema_grouped(k, arr, alpha, case["G"], mask)
                 beta = 1 - alpha
                 ref = _ref(codes, xs, sel, lambda j, i: beta ** sum(1 for l in range(j + 1, i + 1) if codes[l] == codes[i]), dt.kind == "f")
             else:
